@@ -265,7 +265,7 @@ pub fn gen_c13(args: &Args) {
     let mut r = Rng::new(seed ^ 0xC13);
     let mut w = TraceWriter::create(&args.str("out", "c13.ndjson"));
     let mut histories = 0;
-    let mut emit_history = |w: &mut TraceWriter, r: &mut Rng, site: Site, p: &P, first: NaiveDate, days: i64| {
+    let emit_history = |w: &mut TraceWriter, r: &mut Rng, site: Site, p: &P, first: NaiveDate, days: i64| {
         w.emit(json!({"ev": "h0", "site": site_json(&site), "p": p.json()}));
         let mut d = first;
         for _ in 0..days {
